@@ -88,7 +88,9 @@ func alternatives(s *vs.Sched, last int, desc bool) []g2Alt {
 			out = append(out, g2Alt{i, c})
 		}
 	}
-	if last >= 0 && last < n {
+	// a thread parked at an explicit yield (a polling / retry loop made visible) gives way: it goes last
+	yielded := last >= 0 && last < n && s.Thread(last).PendingKind() == vs.KYield
+	if last >= 0 && last < n && !yielded {
 		add(last)
 	}
 	for k := 1; k <= n; k++ {
@@ -106,6 +108,9 @@ func alternatives(s *vs.Sched, last int, desc bool) []g2Alt {
 			continue
 		}
 		add(i)
+	}
+	if yielded {
+		add(last)
 	}
 	return out
 }
